@@ -183,6 +183,7 @@ func (tr *Transaction) setDone() {
 	tr.closed = true
 	tr.db.tr = nil
 	tr.mem.decref()
+	verifEvent(VerifEvTxnUnlock, 0, 0)
 	<-tr.db.writeLockC
 }
 
@@ -303,6 +304,7 @@ func (db *DB) OpenTransaction() (*Transaction, error) {
 	// The write happen synchronously.
 	select {
 	case db.writeLockC <- struct{}{}:
+		verifEvent(VerifEvTxnLock, 0, 0)
 	case err := <-db.compPerErrC:
 		return nil, err
 	case <-db.closeC:
